@@ -8,6 +8,11 @@ import DnsVerif.Spec.Answer
 namespace DnsVerif.ServeSafety
 open DnsVerif DnsVerif.Name DnsVerif.Loc DnsVerif.Serve
 
+/-! decidable equality of outcomes, for the concrete examples in `Props/C13`, `Props/C04` -/
+deriving instance DecidableEq for Ans
+deriving instance DecidableEq for Response
+deriving instance DecidableEq for Outcome
+
 /-! ### well-formed wire names -/
 
 /-- `z` starts with a well-formed wire-format name (`labels` succeeds with some fuel) -/
@@ -100,5 +105,777 @@ theorem isAuthoritativeV1_good (v : View) : ∀ (fuel : Nat) (z : Bytes) (ns aut
             · exact hz.ne_nil
             · rename_i hn
               exact ih _ _ _ (hz.parent hn).2
+
+/-! ### `serve` does not panic when its parts do not -/
+
+theorem serve_no_panic_of (v : View) (q : Query)
+    (h1 : ∀ z, Wf z → GoodCut (isAuthoritative v z)) (hq : Wf q.qname)
+    (h2 : ∀ control, v.v2 = true → findAnswerV2 v q.qname control q.qnameOut q.qtype ≠ .panic) :
+    serve v q ≠ .panic := by
+  unfold serve
+  split
+  · intro h; cases h
+  · intro h; cases h
+  · rename_i cut hcut
+    have hcut0 : cut.zoneCut ≠ [] := by
+      have := h1 _ hq
+      rw [hcut] at this
+      exact this
+    split
+    · intro h; cases h
+    · extract_lets dsStep
+      have hds : GoodCut dsStep := by
+        show GoodCut (if _ then _ else _)
+        split
+        · rename_i hc
+          split
+          · rename_i hnil; exact absurd hnil hq.ne_nil
+          · rename_i n rest hqn
+            have hn : n ≠ 0 := by
+              intro hn0
+              apply hc.2.2
+              rw [hqn, hn0]; rfl
+            have hp := h1 _ ((hqn ▸ hq).parent hn).2
+            split
+            · rename_i c2 hc2
+              rw [hc2] at hp
+              exact hp
+            · trivial
+            · rename_i hpn
+              rw [hpn] at hp
+              exact hp
+        · exact hcut0
+      clear_value dsStep
+      split
+      · exact hds.elim
+      · intro h; cases h
+      · rename_i cut2
+        have hz : cut2.zoneCut.isEmpty = false := by
+          cases hzz : cut2.zoneCut with
+          | nil => exact absurd hzz hds
+          | cons a b => rfl
+        rw [hz]
+        split
+        · rename_i hh; simp at hh
+        extract_lets ans
+        have hans : ans ≠ .panic := by
+          show (if _ then _ else _) ≠ R.panic
+          split
+          · split
+            · rename_i hv2; exact h2 _ hv2
+            · intro h; cases h
+          · intro h; cases h
+        clear_value ans
+        split
+        · rename_i hh; exact absurd rfl hans
+        · intro h; cases h
+        · intro h; cases h
+
+
+/-! ### shape of replies -/
+
+def Shape (r : Response) : Prop :=
+  (r.rcode = 0 ∨ r.rcode = 3 ∨ r.rcode = 5) ∧
+  (r.rcode = 5 → r.aa = false ∧ r.answer = [] ∧ r.answerAddrs = [] ∧ r.ns = [] ∧ r.extra = []) ∧
+  (r.rcode = 3 → r.aa = true ∧ r.answer = []) ∧
+  (r.aa = false → r.answer = [] ∧ r.answerAddrs = [])
+
+theorem reply_shape' (v : View) (q : Query) (r : Response) (h : serve v q = .reply r) : Shape r := by
+  unfold serve at h
+  split at h
+  · cases h
+  · cases h
+  · rename_i cut hcut
+    split at h
+    · cases h
+      refine ⟨Or.inr (Or.inr rfl), fun _ => ⟨rfl, rfl, rfl, rfl, rfl⟩, fun h => ?_, fun _ => ⟨rfl, rfl⟩⟩
+      cases h
+    · extract_lets dsStep at h
+      clear_value dsStep
+      split at h
+      · cases h
+      · cases h
+      · rename_i cut2
+        split at h
+        · cases h
+        extract_lets ans at h
+        have hans : cut2.auth = false → ans = .ok {} := by
+          intro ha
+          show (if _ then _ else _) = _
+          rw [if_neg (by rw [ha]; decide)]
+        clear_value ans
+        split at h
+        · cases h
+        · cases h
+        · rename_i a
+          extract_lets groups answerEmpty rcode hasNsAnswer nsSec present extra1 extra2 at h
+          cases h
+          have hrc : rcode = 0 ∨ rcode = 3 := by
+            show (if _ then 3 else 0) = 0 ∨ (if _ then 3 else 0) = 3
+            split
+            · exact Or.inr rfl
+            · exact Or.inl rfl
+          refine ⟨?_, ?_, ?_, ?_⟩
+          · show rcode = 0 ∨ rcode = 3 ∨ rcode = 5
+            rcases hrc with h | h
+            · exact Or.inl h
+            · exact Or.inr (Or.inl h)
+          · intro h5
+            change rcode = 5 at h5
+            rcases hrc with h | h <;> omega
+          · intro h3
+            change rcode = 3 at h3
+            show cut2.auth = true ∧ a.rrs = []
+            have : cut2.auth = true ∧ answerEmpty ∧ ¬ a.recordFound = true := by
+              apply Classical.byContradiction
+              intro hc
+              have : rcode = 0 := if_neg hc
+              omega
+            exact ⟨this.1, List.isEmpty_iff.mp this.2.1.1⟩
+          · intro haa
+            change cut2.auth = false at haa
+            have := hans haa
+            cases this
+            exact ⟨rfl, rfl⟩
+
+
+/-! ### the closest-key search of the v2 layout -/
+
+theorem seekForPrev_mem (s : Store) (k : Bytes) (e : Bytes × List Bytes)
+    (h : s.seekForPrev k = some e) : e ∈ s := by
+  unfold Store.seekForPrev at h
+  have : ∀ (l : List (Bytes × List Bytes)) (init : Option (Bytes × List Bytes)),
+      (∀ x, init = some x → x ∈ s) → (∀ x ∈ l, x ∈ s) →
+      ∀ x, l.foldl (fun best e =>
+        if Rdb.bytesLe e.1 k then
+          match best with
+          | none => some e
+          | some b => if Rdb.bytesLt b.1 e.1 then some e else some b
+        else best) init = some x → x ∈ s := by
+    intro l
+    induction l with
+    | nil => intro init hi _ x hx; exact hi x hx
+    | cons a l ih =>
+      intro init hi hl x hx
+      rw [List.foldl_cons] at hx
+      refine ih _ ?_ (fun y hy => hl y (List.mem_cons_of_mem _ hy)) x hx
+      intro y hy
+      split at hy
+      · split at hy
+        · cases hy; exact hl _ (List.mem_cons_self ..)
+        · split at hy
+          · cases hy; exact hl _ (List.mem_cons_self ..)
+          · exact hi y hy
+      · exact hi y hy
+  exact this s none (fun x hx => by cases hx) (fun x hx => hx) e h
+
+theorem labelMatch_some (s1 s2 : Bytes) : ∀ (n j : Nat), j + n ≤ s1.length → j + n ≤ s2.length →
+    ∃ b, labelMatch s1 s2 j n = some b := by
+  intro n
+  induction n with
+  | zero => intro j _ _; exact ⟨true, by cases j <;> rfl⟩
+  | succ n ih =>
+    intro j h1 h2
+    rw [labelMatch]
+    have e1 : s1[j]? = some s1[j] := List.getElem?_eq_getElem (by omega)
+    have e2 : s2[j]? = some s2[j] := List.getElem?_eq_getElem (by omega)
+    rw [e1, e2]
+    simp only []
+    split
+    · exact ⟨false, rfl⟩
+    · exact ih (j + 1) (by omega) (by omega)
+
+/-- labels as `unpack` produces them -/
+def GoodLabels (ls : List Bytes) : Prop := ∀ l ∈ ls, l ≠ [] ∧ l.length < 256
+
+/-- exactly a packed name, nothing after the terminator -/
+def Exact (z : Bytes) : Prop := ∃ ls, GoodLabels ls ∧ z = pack ls
+
+theorem labels_good : ∀ (fuel : Nat) (z : Bytes) (ls : List Bytes), labels fuel z = some ls → GoodLabels ls := by
+  intro fuel
+  induction fuel with
+  | zero => intro z ls h; simp [labels] at h
+  | succ fuel ih =>
+    intro z ls h
+    cases z with
+    | nil => simp [labels] at h
+    | cons n rest =>
+      simp only [labels] at h
+      split at h
+      · cases h; intro l hl; cases hl
+      · rename_i hn
+        split at h
+        · cases h
+        · rename_i hlen
+          split at h
+          · rename_i ls' hls'
+            cases h
+            intro l hl
+            rcases List.mem_cons.mp hl with rfl | hl
+            · have hnz : n.toNat ≠ 0 := fun h0 => hn (UInt8.toNat_inj.mp (by rw [h0]; rfl))
+              have hlt : n.toNat < 256 := n.toNat_lt
+              constructor
+              · intro he
+                have := congrArg List.length he
+                simp only [List.length_take, List.length_nil] at this
+                omega
+              · simp only [List.length_take]; omega
+            · exact ih _ _ hls' l hl
+          · cases h
+
+theorem Exact.ne_nil {z : Bytes} (h : Exact z) : z ≠ [] := by
+  obtain ⟨ls, _, rfl⟩ := h
+  unfold pack
+  intro h
+  have := congrArg List.length h
+  simp at this
+
+theorem Exact.cases {n : UInt8} {rest : Bytes} (h : Exact (n :: rest)) :
+    (n = 0 ∧ rest = []) ∨ (n ≠ 0 ∧ n.toNat ≤ rest.length ∧ Exact (rest.drop n.toNat)) := by
+  obtain ⟨ls, hg, he⟩ := h
+  cases ls with
+  | nil =>
+    left
+    simp only [pack, List.flatMap_nil, List.nil_append] at he
+    cases he
+    exact ⟨rfl, rfl⟩
+  | cons l ls' =>
+    right
+    have hl := hg l (List.mem_cons_self ..)
+    have hlen : 0 < l.length := List.length_pos_iff.mpr hl.1
+    simp only [pack, List.flatMap_cons, List.cons_append, List.append_assoc] at he
+    injection he with h1 h2
+    have hn : n.toNat = l.length := by
+      rw [h1]
+      exact UInt8.toNat_ofNat_of_lt' hl.2
+    refine ⟨?_, ?_, ?_⟩
+    · intro h0
+      rw [h0] at hn
+      have : (0 : UInt8).toNat = 0 := rfl
+      omega
+    · rw [h2, hn]; simp
+    · refine ⟨ls', fun x hx => hg x (List.mem_cons_of_mem _ hx), ?_⟩
+      rw [h2, hn]
+      simp [pack]
+
+theorem reverseWire_exact {q rev : Bytes} (h : reverseWire q = some rev) : Exact rev := by
+  unfold reverseWire at h
+  cases hu : unpack q with
+  | none => rw [hu] at h; cases h
+  | some ls =>
+    rw [hu] at h
+    cases h
+    have := labels_good _ _ _ hu
+    exact ⟨ls.reverse, fun l hl => this l (List.mem_reverse.mp hl), rfl⟩
+
+theorem labelMatch_true_bound (s1 s2 : Bytes) : ∀ (n j : Nat), j ≤ s1.length →
+    labelMatch s1 s2 j n = some true → j + n ≤ s1.length := by
+  intro n
+  induction n with
+  | zero => intro j h _; exact h
+  | succ n ih =>
+    intro j hj h
+    rw [labelMatch] at h
+    split at h
+    · rename_i a b ha hb
+      split at h
+      · cases h
+      · have hlt : j < s1.length := by
+          have := List.getElem?_eq_some_iff.mp ha
+          exact this.1
+        have := ih (j + 1) hlt h
+        omega
+    · cases h
+
+theorem commonPrefix_bound (s1 s2 : Bytes) : ∀ (fuel i r : Nat), commonPrefix s1 s2 fuel i = some r →
+    i ≤ s1.length → r ≤ s1.length := by
+  intro fuel
+  induction fuel with
+  | zero => intro i r h hi; rw [commonPrefix] at h; cases h; exact hi
+  | succ fuel ih =>
+    intro i r h hi
+    rw [commonPrefix] at h
+    split at h
+    · rename_i a b ha hb
+      have hlt : i < s1.length := (List.getElem?_eq_some_iff.mp ha).1
+      split at h
+      · cases h; exact hi
+      · split at h
+        · cases h
+        · rename_i hm
+          have := labelMatch_true_bound s1 s2 a.toNat (i + 1) hlt hm
+          exact ih _ _ h (by omega)
+        · cases h; exact hi
+    · cases h; exact hi
+
+theorem commonPrefix_end (s1 s2 : Bytes) (fuel i : Nat) (h : s1.length ≤ i) :
+    commonPrefix s1 s2 fuel i = some i := by
+  cases fuel with
+  | zero => rfl
+  | succ fuel =>
+    rw [commonPrefix]
+    have : s1[i]? = none := List.getElem?_eq_none h
+    rw [this]
+
+theorem drop_cons_facts {s : Bytes} {i : Nat} {a : UInt8} {r : Bytes} (h : s.drop i = a :: r) :
+    s[i]? = some a ∧ s.length = i + 1 + r.length ∧ ∀ n, s.drop (i + n + 1) = r.drop n := by
+  refine ⟨?_, ?_, ?_⟩
+  · have : (s.drop i)[0]? = some a := by rw [h]; rfl
+    rw [List.getElem?_drop] at this
+    exact this
+  · have := congrArg List.length h
+    simp only [List.length_drop, List.length_cons] at this
+    omega
+  · intro n
+    have : (s.drop i).drop (n + 1) = r.drop n := by rw [h, List.drop_succ_cons]
+    rw [List.drop_drop] at this
+    exact this
+
+theorem commonPrefix_some (s1 s2 : Bytes) : ∀ (fuel i : Nat), Exact (s1.drop i) → Wf (s2.drop i) →
+    ∃ r, commonPrefix s1 s2 fuel i = some r := by
+  intro fuel
+  induction fuel with
+  | zero => intro i _ _; exact ⟨i, rfl⟩
+  | succ fuel ih =>
+    intro i h1 h2
+    cases hd1 : s1.drop i with
+    | nil => exact absurd hd1 h1.ne_nil
+    | cons a r1 =>
+      cases hd2 : s2.drop i with
+      | nil => exact absurd hd2 h2.ne_nil
+      | cons b r2 =>
+        obtain ⟨e1, l1, d1⟩ := drop_cons_facts hd1
+        obtain ⟨e2, l2, d2⟩ := drop_cons_facts hd2
+        rw [commonPrefix, e1, e2]
+        simp only []
+        by_cases hab : a = b
+        · subst hab
+          rw [if_neg (by simp)]
+          rw [hd1] at h1
+          rw [hd2] at h2
+          rcases h1.cases with ⟨ha0, hr1⟩ | ⟨han, hlen1, hex⟩
+          · subst ha0
+            have : labelMatch s1 s2 (i + 1) (0 : UInt8).toNat = some true := by
+              show labelMatch s1 s2 (i + 1) 0 = some true
+              rw [labelMatch]
+            rw [this]
+            simp only []
+            rw [commonPrefix_end]
+            · exact ⟨_, rfl⟩
+            · rw [l1, hr1]; show i + 1 + 0 ≤ i + 0 + 1; omega
+          · obtain ⟨hlen2, hwf⟩ := h2.parent han
+            obtain ⟨bb, hbb⟩ := labelMatch_some s1 s2 a.toNat (i + 1) (by omega) (by omega)
+            rw [hbb]
+            cases bb with
+            | false => exact ⟨_, rfl⟩
+            | true =>
+              simp only []
+              apply ih
+              · rw [d1]; exact hex
+              · rw [d2]; exact hwf
+        · rw [if_pos hab]; exact ⟨_, rfl⟩
+
+theorem lwl_some (q : Bytes) (ql : Nat) (hB : (ql % 256 + 255) % 256 ≤ q.length) :
+    ∀ (fuel i last : Nat), last ≤ (ql % 256 + 255) % 256 →
+    ∃ r, lengthWithoutLastLabel q ql fuel i last = some r ∧ 1 ≤ r ∧ r ≤ q.length + 1 := by
+  intro fuel
+  induction fuel with
+  | zero => intro i last hl; exact ⟨last + 1, rfl, by omega, by omega⟩
+  | succ fuel ih =>
+    intro i last hl
+    rw [lengthWithoutLastLabel]
+    by_cases hi : i < (ql % 256 + 255) % 256
+    · rw [if_pos hi]
+      have : q[i]? = some q[i] := List.getElem?_eq_getElem (by omega)
+      rw [this]
+      simp only []
+      exact ih _ _ (by omega)
+    · rw [if_neg hi]
+      exact ⟨last + 1, rfl, by omega, by omega⟩
+
+/-- every key carrying the resource-record marker holds, between the marker and its last two bytes
+(the location), a byte string that starts with a well-formed wire name -/
+def V2KeysOk (s : Store) : Prop :=
+  ∀ e ∈ s, e.1.take 2 = Generated.dnsdata_ResourceRecordsKeyMarker →
+    (unpack ((e.1.drop 2).take (e.1.length - 4))).isSome = true
+
+theorem findGo_tail {σ : Type} (v : View) (rev : Bytes)
+    (pre : Nat → σ → Option σ) (onRows : List Bytes → σ → σ) (post : σ → σ × Bool) (J : σ → Prop)
+    (hs : V2KeysOk v.store) (hrev : Exact rev)
+    (hpost : ∀ st, J st → J (post st).1)
+    (fuel ql : Nat) (hql1 : 1 ≤ ql) (hql2 : ql ≤ rev.length + 1)
+    (ih : ∀ (nl : Nat) (st : σ), 1 ≤ nl → nl ≤ rev.length + 1 → J st →
+      ∃ st', findGo v rev pre onRows post fuel nl st = .ok st' ∧ J st')
+    (k : Option Bytes) (st3 : σ) (hJ3 : J st3) (hk : k = none ∨ ∃ e ∈ v.store, k = some e.1) :
+    ∃ st', (match post st3 with
+      | (st4, cont) =>
+        if ¬ cont then R.ok st4
+        else
+          let kk := k.getD []
+          if kk.length < 2 ∨ kk.take 2 ≠ Generated.dnsdata_ResourceRecordsKeyMarker then R.ok st4
+          else if ql = 1 then R.ok st4
+          else
+            if kk.length < 4 then R.panic else
+            let foundLabel := (kk.drop 2).take (kk.length - 4)
+            if foundLabel.isEmpty then R.panic else
+            let next : Option Nat :=
+              if rev.take (ql - 1) = foundLabel.take (foundLabel.length - 1) then
+                lengthWithoutLastLabel rev ql 256 0 0
+              else (commonPrefix rev foundLabel (rev.length + 1) 0).map (· + 1)
+            match next with
+            | none => R.panic
+            | some nl => findGo v rev pre onRows post fuel nl st4) = .ok st' ∧ J st' := by
+  have hJ4 := hpost _ hJ3
+  generalize post st3 = p4 at hJ4 ⊢
+  obtain ⟨st4, cont⟩ := p4
+  dsimp -zeta only at hJ4 ⊢
+  split
+  · exact ⟨st4, rfl, hJ4⟩
+  extract_lets kk foundLabel next
+  split
+  · exact ⟨st4, rfl, hJ4⟩
+  rename_i hkk
+  split
+  · exact ⟨st4, rfl, hJ4⟩
+  -- the found key carries the marker: it is a key of the store
+  have hkey : (unpack ((kk.drop 2).take (kk.length - 4))).isSome = true := by
+    rcases hk with hk | ⟨e, he, hk⟩
+    · exfalso; apply hkk; left
+      show (k.getD []).length < 2
+      rw [hk]; decide
+    · have hkke : kk = e.1 := by show k.getD [] = e.1; rw [hk]; rfl
+      rw [hkke]
+      apply hs e he
+      rw [← hkke]
+      apply Classical.byContradiction
+      intro hne
+      exact hkk (Or.inr hne)
+  cases hun : unpack ((kk.drop 2).take (kk.length - 4)) with
+  | none => rw [hun] at hkey; cases hkey
+  | some fls =>
+    have hwf : Wf ((kk.drop 2).take (kk.length - 4)) := Wf.of_unpack hun
+    have hne := hwf.ne_nil
+    have hlen4 : ¬ kk.length < 4 := by
+      intro hlt
+      apply hne
+      have : kk.length - 4 = 0 := by omega
+      rw [this]; rfl
+    rw [if_neg hlen4]
+    have hfl : foundLabel.isEmpty = false := by
+      cases hf : foundLabel with
+      | nil => exact absurd hf hne
+      | cons a b => rfl
+    rw [hfl]
+    rw [if_neg (by decide)]
+    have hnext : ∃ nl, next = some nl ∧ 1 ≤ nl ∧ nl ≤ rev.length + 1 := by
+      simp only [next]
+      split
+      · exact lwl_some rev ql (by omega) 256 0 0 (by omega)
+      · obtain ⟨r, hr⟩ := commonPrefix_some rev foundLabel (rev.length + 1) 0 hrev hwf
+        have hb := commonPrefix_bound rev foundLabel _ _ _ hr (by omega)
+        rw [hr]
+        exact ⟨r + 1, rfl, by omega, by omega⟩
+    clear_value next
+    obtain ⟨nl, hnl, hnl1, hnl2⟩ := hnext
+    rw [hnl]
+    exact ih nl st4 hnl1 hnl2 hJ4
+
+theorem findGo_ok {σ : Type} (v : View) (rev : Bytes)
+    (pre : Nat → σ → Option σ) (onRows : List Bytes → σ → σ) (post : σ → σ × Bool) (J : σ → Prop)
+    (hs : V2KeysOk v.store) (hrev : Exact rev)
+    (hpre : ∀ ql st st1, 1 ≤ ql → pre ql st = some st1 → J st1)
+    (hrows : ∀ rows st, J st → J (onRows rows st))
+    (hpost : ∀ st, J st → J (post st).1) :
+    ∀ (fuel ql : Nat) (st : σ), 1 ≤ ql → ql ≤ rev.length + 1 →
+      (J st ∨ (fuel ≠ 0 ∧ pre ql st ≠ none)) →
+      ∃ st', findGo v rev pre onRows post fuel ql st = .ok st' ∧ J st' := by
+  intro fuel
+  induction fuel with
+  | zero =>
+    intro ql st _ _ h
+    rcases h with h | ⟨h, _⟩
+    · exact ⟨st, rfl, h⟩
+    · exact absurd rfl h
+  | succ fuel ih =>
+    intro ql st hql1 hql2 h
+    rw [findGo]
+    split
+    · rename_i hnone
+      rcases h with h | ⟨_, h⟩
+      · exact ⟨st, rfl, h⟩
+      · exact absurd hnone h
+    · rename_i st1 hst1
+      have hJ1 : J st1 := hpre _ _ _ hql1 hst1
+      rw [if_neg (by omega)]
+      extract_lets marker nameKey key tryForEach
+      have htry : ∀ k st, J st → J (tryForEach k st).2 ∧
+          ((tryForEach k st).1 = none ∨ ∃ e ∈ v.store, (tryForEach k st).1 = some e.1) := by
+        intro k st hj
+        simp only [tryForEach]
+        split
+        · exact ⟨hj, Or.inl rfl⟩
+        · rename_i fk vals hseek
+          have hm := seekForPrev_mem _ _ _ hseek
+          split
+          · exact ⟨hrows _ _ hj, Or.inr ⟨_, hm, rfl⟩⟩
+          · exact ⟨hj, Or.inr ⟨_, hm, rfl⟩⟩
+      clear_value tryForEach
+      have h1 := htry key st1 hJ1
+      generalize tryForEach key st1 = p1 at h1 ⊢
+      obtain ⟨k1, st2⟩ := p1
+      simp only [] at h1 ⊢
+      obtain ⟨hJ2, hk1⟩ := h1
+      have tl := findGo_tail v rev pre onRows post J hs hrev hpost fuel ql hql1 hql2
+        (fun nl st h1 h2 hj => ih nl st h1 h2 (Or.inl hj))
+      cases k1 with
+      | none => exact tl none st2 hJ2 hk1
+      | some fk =>
+        dsimp only
+        split
+        · have h3 := htry (nameKey ++ [0, 0]) st2 hJ2
+          generalize tryForEach (nameKey ++ [0, 0]) st2 = p3 at h3 ⊢
+          obtain ⟨k, st3⟩ := p3
+          exact tl k st3 h3.1 h3.2
+        · exact tl (some fk) st2 hJ2 hk1
+
+theorem isAuthoritativeV2_good (v : View) (hs : V2KeysOk v.store) (q : Bytes) (hq : Wf q) :
+    GoodCut (isAuthoritativeV2 v q) := by
+  obtain ⟨ls, hls⟩ := hq.unpack
+  have hrw : reverseWire q = some (pack ls.reverse) := by unfold reverseWire; rw [hls]; rfl
+  have hex := reverseWire_exact hrw
+  have hlen : 1 ≤ (pack ls.reverse).length := List.length_pos_iff.mpr hex.ne_nil
+  unfold isAuthoritativeV2
+  rw [hrw]
+  dsimp -zeta only
+  extract_lets pre onRows post
+  obtain ⟨st', hst', hJ⟩ := findGo_ok v (pack ls.reverse) pre onRows post (fun st => 1 ≤ st.2.2.1) hs hex
+    (fun ql st st1 h1 h => by cases h; exact h1)
+    (fun rows st h => by
+      simp only [onRows]
+      split <;> exact h)
+    (fun st h => h)
+    ((pack ls.reverse).length + 2) (pack ls.reverse).length (false, false, 0, false) hlen (by omega)
+    (Or.inr ⟨by omega, by intro h; cases h⟩)
+  rw [hst']
+  obtain ⟨ns, auth, zl, pn⟩ := st'
+  show q.drop (q.length - zl) ≠ []
+  have hq1 : 1 ≤ q.length := List.length_pos_iff.mpr hq.ne_nil
+  intro h
+  have := congrArg List.length h
+  simp only [List.length_drop, List.length_nil] at this
+  have hJ' : 1 ≤ zl := hJ
+  omega
+
+theorem findAnswerV2_no_panic (v : View) (hs : V2KeysOk v.store) (q control qnameOut : Bytes) (qtype : Nat)
+    (hq : Wf q) : findAnswerV2 v q control qnameOut qtype ≠ .panic := by
+  obtain ⟨ls, hls⟩ := hq.unpack
+  have hrw : reverseWire q = some (pack ls.reverse) := by unfold reverseWire; rw [hls]; rfl
+  have hex := reverseWire_exact hrw
+  have hlen : 1 ≤ (pack ls.reverse).length := List.length_pos_iff.mpr hex.ne_nil
+  unfold findAnswerV2
+  rw [hrw]
+  dsimp -zeta only
+  extract_lets pre onRows post
+  obtain ⟨st', hst', _⟩ := findGo_ok v (pack ls.reverse) pre onRows post (fun _ => True) hs hex
+    (fun _ _ _ _ _ => trivial) (fun _ _ _ => trivial) (fun _ _ => trivial)
+    ((pack ls.reverse).length + 2) (pack ls.reverse).length ({}, false, (pack ls.reverse).length) hlen (by omega)
+    (Or.inl trivial)
+  rw [hst']
+  intro h
+  cases h
+
+
+/-! ### the canonical v2 key format satisfies `V2KeysOk` -/
+
+theorem pack_cons (l : Bytes) (ls : List Bytes) : pack (l :: ls) = UInt8.ofNat l.length :: (l ++ pack ls) := by
+  simp [pack]
+
+theorem labels_pack : ∀ (ls : List Bytes) (t : Bytes) (fuel : Nat), GoodLabels ls → ls.length < fuel →
+    labels fuel (pack ls ++ t) = some ls := by
+  intro ls
+  induction ls with
+  | nil =>
+    intro t fuel _ hf
+    cases fuel with
+    | zero => omega
+    | succ fuel => rfl
+  | cons l ls ih =>
+    intro t fuel hg hf
+    cases fuel with
+    | zero => omega
+    | succ fuel =>
+      have hl := hg l (List.mem_cons_self ..)
+      have hn : (UInt8.ofNat l.length).toNat = l.length := UInt8.toNat_ofNat_of_lt' hl.2
+      have hlen : 0 < l.length := List.length_pos_iff.mpr hl.1
+      rw [pack_cons, List.cons_append, labels]
+      have hne : UInt8.ofNat l.length ≠ 0 := by
+        intro h0
+        rw [h0] at hn
+        have : (0 : UInt8).toNat = 0 := rfl
+        omega
+      rw [if_neg hne, hn, if_neg (by simp)]
+      have hd : (l ++ pack ls ++ t).drop l.length = pack ls ++ t := by
+        rw [List.append_assoc, List.drop_left]
+      have ht : (l ++ pack ls ++ t).take l.length = l := by
+        rw [List.append_assoc, List.take_left]
+      rw [hd, ht, ih t fuel (fun x hx => hg x (List.mem_cons_of_mem _ hx)) (by simp at hf; omega)]
+
+theorem length_lt_pack (ls : List Bytes) : ls.length < (pack ls).length := by
+  induction ls with
+  | nil => decide
+  | cons a t ih =>
+    rw [pack_cons]
+    simp only [List.length_cons, List.length_append]
+    omega
+
+/-- the canonical key format implies the hypothesis used by the v2 theorems -/
+theorem V2KeysOk_of_canonical (s : Store)
+    (h : ∀ e ∈ s, e.1.take 2 = Generated.dnsdata_ResourceRecordsKeyMarker →
+      ∃ (ls : List Bytes) (loc : Bytes), GoodLabels ls ∧ loc.length = 2 ∧
+        e.1 = Generated.dnsdata_ResourceRecordsKeyMarker ++ pack ls ++ loc) : V2KeysOk s := by
+  intro e he hm
+  obtain ⟨ls, loc, hg, hloc, hk⟩ := h e he hm
+  have h1 : (e.1.drop 2).take (e.1.length - 4) = pack ls := by
+    rw [hk]
+    have : (Generated.dnsdata_ResourceRecordsKeyMarker ++ pack ls ++ loc).length - 4 = (pack ls).length := by
+      simp only [List.length_append, hloc]
+      show 2 + _ + 2 - 4 = _
+      omega
+    rw [this, List.append_assoc]
+    show List.take _ (pack ls ++ loc) = _
+    rw [List.take_left]
+  rw [h1]
+  have := labels_pack ls [] ((pack ls).length + 1) hg (by
+    have := length_lt_pack ls
+    omega)
+  rw [List.append_nil] at this
+  unfold unpack
+  rw [this]; rfl
+
+/-! ### C04: location framing, v1 layouts -/
+
+section frame
+variable {b : Backend} {s₁ s₂ : Store} {l : Bytes}
+  (hl : l.length = 2)
+  (h : ∀ k : Bytes, (k.take 2 = l ∨ k.take 2 = [0, 0]) → s₁.get k = s₂.get k)
+include hl h
+
+theorem get_loc (z : Bytes) : s₁.get (l ++ z) = s₂.get (l ++ z) :=
+  h _ (Or.inl (List.take_left' hl))
+
+omit hl in
+theorem get_untagged (z : Bytes) : s₁.get ([0, 0] ++ z) = s₂.get ([0, 0] ++ z) :=
+  h _ (Or.inr rfl)
+
+theorem isAuthoritativeV1_frame : ∀ (fuel : Nat) (z : Bytes) (ns auth : Bool),
+    isAuthoritativeV1 ⟨b, s₁, l⟩ fuel z ns auth = isAuthoritativeV1 ⟨b, s₂, l⟩ fuel z ns auth := by
+  intro fuel
+  induction fuel with
+  | zero => intro z ns auth; rfl
+  | succ fuel ih =>
+    intro z ns auth
+    simp only [isAuthoritativeV1, get_loc hl h, get_untagged h, ih]
+
+theorem findAnswerV1_frame (control qnameOut : Bytes) (qtype : Nat) : ∀ (fuel : Nat) (q : Bytes) (w : Bool) (acc : Ans),
+    findAnswerV1 ⟨b, s₁, l⟩ control qnameOut qtype fuel q w acc =
+      findAnswerV1 ⟨b, s₂, l⟩ control qnameOut qtype fuel q w acc := by
+  intro fuel
+  induction fuel with
+  | zero => intro q w acc; rfl
+  | succ fuel ih =>
+    intro q w acc
+    simp only [findAnswerV1, get_loc hl h, get_untagged h, ih]
+
+theorem rowsOf_frame (hb : b ≠ .rdbV2) (p : Bytes) : rowsOf ⟨b, s₁, l⟩ p = rowsOf ⟨b, s₂, l⟩ p := by
+  have hv2 : ∀ s, View.v2 ⟨b, s, l⟩ = false := fun s => by simp [View.v2, hb]
+  simp only [rowsOf, rrKey, hv2, Bool.false_eq_true, ↓reduceIte, Option.map_some, Option.getD_some,
+    get_loc hl h, get_untagged h]
+
+theorem serve_frame (hb : b ≠ .rdbV2) (q : Query) : serve ⟨b, s₁, l⟩ q = serve ⟨b, s₂, l⟩ q := by
+  have hv2 : ∀ s, View.v2 ⟨b, s, l⟩ = false := fun s => by simp [View.v2, hb]
+  have hA : ∀ z, isAuthoritative ⟨b, s₁, l⟩ z = isAuthoritative ⟨b, s₂, l⟩ z := by
+    intro z
+    simp only [isAuthoritative, hv2, Bool.false_eq_true, ↓reduceIte, isAuthoritativeV1_frame hl h]
+  have hR := rowsOf_frame hl h hb
+  have hSOA : ∀ z, findSOA ⟨b, s₁, l⟩ z = findSOA ⟨b, s₂, l⟩ z := by
+    intro z; simp only [findSOA, hR]
+  have hNs : ∀ z c, getNs ⟨b, s₁, l⟩ z c = getNs ⟨b, s₂, l⟩ z c := by
+    intro z c; simp only [getNs, hR]
+  have hAdd : ∀ c rs pr acc, additionalFor ⟨b, s₁, l⟩ c rs pr acc = additionalFor ⟨b, s₂, l⟩ c rs pr acc := by
+    intro c rs pr acc; simp only [additionalFor, hR]
+  simp only [serve, hv2, Bool.false_eq_true, ↓reduceIte, hA, hSOA, hNs, hAdd, findAnswerV1_frame hl h]
+
+end frame
+
+
+/-! ### C04: the specification looks at visible records only -/
+
+section spec
+open DnsVerif.Spec
+
+theorem filter_vis_filter (l : Bytes) (recs : List Rec) (f : Rec → Bool) (hf : ∀ r, f r = true → visible l r = true) :
+    (recs.filter (visible l)).filter f = recs.filter f := by
+  rw [List.filter_filter]
+  apply List.filter_congr
+  intro r _
+  cases hfr : f r with
+  | false => simp
+  | true => simp [hf r hfr]
+
+theorem filter_vis_any (l : Bytes) (recs : List Rec) (f : Rec → Bool) (hf : ∀ r, f r = true → visible l r = true) :
+    (recs.filter (visible l)).any f = recs.any f := by
+  rw [List.any_filter]
+  induction recs with
+  | nil => rfl
+  | cons a t ih =>
+    simp only [List.any_cons, ih]
+    cases hfr : f a with
+    | false => simp
+    | true => simp [hf a hfr]
+
+theorem filter_vis_find (l : Bytes) (recs : List Rec) (f : Rec → Bool) (hf : ∀ r, f r = true → visible l r = true) :
+    (recs.filter (visible l)).find? f = recs.find? f := by
+  induction recs with
+  | nil => rfl
+  | cons a t ih =>
+    rw [List.filter_cons]
+    cases hv : visible l a with
+    | true =>
+      simp only [if_true, List.find?_cons, ih]
+    | false =>
+      have : f a = false := by
+        cases hfa : f a with
+        | false => rfl
+        | true => rw [hf a hfa] at hv; cases hv
+      simp only [Bool.false_eq_true, if_false, List.find?_cons, this, ih]
+
+theorem recordsFor_up_frame (l : Bytes) (recs : List Rec) (cut : List Bytes) : ∀ q,
+    recordsFor.up (recs.filter (visible l)) l cut q = recordsFor.up recs l cut q := by
+  intro q
+  induction q with
+  | nil => rfl
+  | cons lab rest ih =>
+    simp only [recordsFor.up, ih]
+    rw [filter_vis_filter l recs _ (by intro r hr; simp only [decide_eq_true_eq] at hr; exact hr.2.2)]
+
+theorem recordsFor_frame (l : Bytes) (recs : List Rec) (q cut : List Bytes) :
+    recordsFor (recs.filter (visible l)) l q cut = recordsFor recs l q cut := by
+  simp only [recordsFor, recordsFor_up_frame]
+  rw [filter_vis_filter l recs _ (by intro r hr; simp only [decide_eq_true_eq] at hr; exact hr.2.2)]
+
+theorem spec_frame' (z : Zone) (q : List Bytes) (qtype qclass maxAns : Nat) (l : Bytes) :
+    answer { z with recs := z.recs.filter (visible l) } q qtype qclass maxAns l =
+      answer z q qtype qclass maxAns l := by
+  have hany : ∀ f : Rec → Bool, (∀ r, f r = true → visible l r = true) →
+      (z.recs.filter (visible l)).any f = z.recs.any f := filter_vis_any l z.recs
+  have hfil : ∀ f : Rec → Bool, (∀ r, f r = true → visible l r = true) →
+      (z.recs.filter (visible l)).filter f = z.recs.filter f := filter_vis_filter l z.recs
+  have hfind : ∀ f : Rec → Bool, (∀ r, f r = true → visible l r = true) →
+      (z.recs.filter (visible l)).find? f = z.recs.find? f := filter_vis_find l z.recs
+  unfold answer
+  simp (maxSteps := 400000) (disch := intro r hr; simp only [decide_eq_true_eq] at hr; first | exact hr.2.2.2 | exact hr.2.2.2.1) only [recordsFor_frame, hany, hfil, hfind]
+
+
+end spec
 
 end DnsVerif.ServeSafety
